@@ -499,7 +499,9 @@ func (c *Ctx) globalsGuarded() {
 	c.R.Count("package-level variables with writes", n)
 }
 
-func isCondWaitCounter(k string) bool { return strings.HasSuffix(k, ".cwait") || strings.HasSuffix(k, ".pwait") }
+func isCondWaitCounter(k string) bool {
+	return strings.HasSuffix(k, ".cwait") || strings.HasSuffix(k, ".pwait")
+}
 
 // notClaimed: fields of the API objects with run-time writes and no lock anywhere; outside what
 // the guarded-by inference can decide and not claimed (one line of reason each).
